@@ -249,5 +249,34 @@ func init() {
 			Find: `(?s)\n\tRUNNING:\n(.*?startTimer\(req\)\n\t\t\t\t)goto RUNNING`, Repl: "\n${1}continue", Expect: []string{"C12.7"}},
 		Mutant{Prop: "C12", Name: "cancel-closes-elapsed-channel", File: fTimer, Func: "StandardRoundTimer.background",
 			Find: `// Don't close the channel on cancel\.`, Repl: "close(timerElapsed)", Expect: []string{"C12.5"}},
+		// ---- round 5 rules
+		Mutant{Prop: "C18", Name: "round-advance-on-hand-derived-threshold", File: fKernel, Func: "Kernel.checkVotingPrecommitViewShift",
+			Find: `if vs\.TotalPrecommitPower == vs\.AvailablePower \{`, Repl: "if vs.TotalPrecommitPower-highestPow >= vs.AvailablePower-maj {", Expect: []string{"C18.8"}},
+		Mutant{Prop: "C02", Name: "startup-keeps-proposal-channel-although-view-has-our-header", File: fSM, Func: "StateMachine.initializeRLC",
+			Find: `(?s)(if m\.signer\.PubKey\(\)\.Equal\(ph\.ProposerPubKey\) \{.*?)rlc\.ProposalCh = nil\n\t\t\t\tbreak`, Repl: "${1}break", Expect: []string{"C02.10"}},
+		Mutant{Prop: "C12", Name: "elapsed-channel-reused-after-cancel", File: fTimer, Func: "StandardRoundTimer.background",
+			Find: `\n\t\ttimerElapsed = make\(chan struct\{\}\)\n`, Repl: "\n\t\tif timerElapsed == nil {\n\t\t\ttimerElapsed = make(chan struct{})\n\t\t}\n", Expect: []string{"C12.8"}},
+		Mutant{Prop: "C16", Name: "replayed-header-replaces-earlier-one", File: "tm/tmstore/tmmemstore/roundstore.go", Func: "RoundStore.SaveRoundReplayedHeader",
+			Find: `s\.replayedHeaders\[h\.Height\] = append\(s\.replayedHeaders\[h\.Height\], h\)`, Repl: "s.replayedHeaders[h.Height] = []tmconsensus.Header{h}", Expect: []string{"C16.6"}},
+		Mutant{Prop: "C07", Name: "engine-mirror-set-from-external-genesis", File: fEngine, Func: "New",
+			Find: `e\.mCfg\.InitialValidatorSet = smCfg\.Genesis\.ValidatorSet\n`, Repl: "e.mCfg.InitialValidatorSet = smCfg.Genesis.ValidatorSet\n\tif e.mCfg.InitialValidatorSet.Validators == nil {\n\t\te.mCfg.InitialValidatorSet = e.genesis.GenesisValidatorSet\n\t}\n", Expect: []string{"C07.6"}},
+		Mutant{Prop: "C10", Name: "engine-mirror-set-from-external-genesis", File: fEngine, Func: "New",
+			Find: `e\.mCfg\.InitialValidatorSet = smCfg\.Genesis\.ValidatorSet\n`, Repl: "e.mCfg.InitialValidatorSet = smCfg.Genesis.ValidatorSet\n\tif e.mCfg.InitialValidatorSet.Validators == nil {\n\t\te.mCfg.InitialValidatorSet = e.genesis.GenesisValidatorSet\n\t}\n", Expect: []string{"C10.7"}},
+		Mutant{Prop: "C10", Name: "commit-proof-saved-by-reference", File: fKernel, Func: "Kernel.saveCurrentCommittingHeader",
+			Find: `proof := s\.Voting\.PrevCommitProof\.Clone\(\)`, Repl: "proof := s.Voting.PrevCommitProof", Expect: []string{"C10.8"}},
+		Mutant{Prop: "C05", Name: "commit-proof-saved-by-reference", File: fKernel, Func: "Kernel.saveCurrentCommittingHeader",
+			Find: `proof := s\.Voting\.PrevCommitProof\.Clone\(\)`, Repl: "proof := s.Voting.PrevCommitProof", Expect: []string{"C05.9"}},
+		Mutant{Prop: "C09", Name: "wrong-commit-status-falls-into-view-dispatch", File: fMirror, Func: "Mirror.HandlePrevoteProofs",
+			Find: `if vlResp\.Status != tmi\.ViewFound \{`, Repl: "if vlResp.Status == tmi.ViewBeforeCommitting || vlResp.Status == tmi.ViewOrphaned {", Expect: []string{"C09.11"}},
+		Mutant{Prop: "C11", Name: "nil-commit-pins-a-view-never-cleared-on-entrance", File: fKState, Func: "kState.AdvanceVotingRound",
+			Find: `(\n\ts\.incrementVotingRound\(\)\n)`, Repl: "\n\tif m := &s.StateMachineViewManager; m.H() == s.Voting.Height && m.R() == s.Voting.Round && m.forceSend == nil {\n\t\tfinal := s.Voting.Clone()\n\t\tm.ForceSend(&final)\n\t}\n$1", Expect: []string{"C11.7"}},
+		Mutant{Prop: "C04", Name: "replay-jump-not-persisted", File: fKernel, Func: "Kernel.handleReplayedHeader",
+			Find: `(?s)if err := k\.jumpVotingRound\(ctx, s, proof\.Round\); err != nil \{.*?\n\t\t\t\}\n\t\t\}\n`, Repl: "s.JumpVotingRound()\n", Expect: []string{"C04.10"}},
+		Mutant{Prop: "C08", Name: "decide-precommit-on-fully-voted-split-prevotes", File: fSM, Func: "StateMachine.handlePrevoteViewUpdate",
+			Find: `if maxPow >= maj \{`, Repl: "if maxPow >= maj || vs.TotalPrevotePower == vs.AvailablePower {", Expect: []string{"C08.9"}},
+		Mutant{Prop: "C06", Name: "recycled-summary-keeps-most-voted-hash", File: fVS, Func: "VoteSummary.ResetForSameHeight",
+			Find: `\n\tvs\.MostVotedPrecommitHash = ""\n`, Repl: "\n", Expect: []string{"C06.6"}},
+		Mutant{Prop: "C13", Name: "binomial-on-machine-words", File: "gcrypto/gblsminsig/signatureproofscheme.go", Func: "binomialCoefficient",
+			Find: `out\.Binomial\(int64\(n\), int64\(k\)\)`, Repl: "if n <= 67 {\n\t\tkk := min(k, n-k)\n\t\tc := uint64(1)\n\t\tfor i := 1; i <= kk; i++ {\n\t\t\tc = c * uint64(n-kk+i) / uint64(i)\n\t\t}\n\t\tout.SetUint64(c)\n\t\treturn\n\t}\n\tout.Binomial(int64(n), int64(k))", Expect: []string{"C13.8"}},
 	)
 }
